@@ -357,6 +357,51 @@ def register(reg):
         W + '.make_nodelist', W + '.make_node', NODES + 'LatexNodeList.__init__', NODES + 'LatexNodeList.__getitem__',
         NODES + 'LatexNodeList.__len__', NODES + '_update_posposend_from_nodelist'}, split_depth=4)}
 
+    # ---- latex_verbatim(): a node is its source slice; a node list is the concatenation of its nodes' source, in order -----------------
+    def setup_nv(it):
+        src = sym_str(it, 's')
+        w = None if it.ctx.choose(2, 'the node knows its walker') == 1 else new_obj(it, W, {'s': src}, tag='latex_walker')
+        a = sym_int(it, 'pos', lo=0)
+        e = sym_int(it, 'pos_end', lo=0)
+        n = new_obj(it, NODES + 'LatexCharsNode', {'pos': a, 'pos_end': e, 'latex_walker': w, 'parsing_state': None, 'chars': ''}, tag='self')
+        return {'self': n}
+    c_nv = Contract(NODES + 'LatexNode.latex_verbatim', setup=setup_nv,
+                    requires=[('the-node-lies-in-the-source',
+                               'self.latex_walker is None or (0 <= self.pos and self.pos <= self.pos_end and self.pos_end <= len(self.latex_walker.s))')],
+                    ensures=[('the-source-slice-of-the-node', 'result == self.latex_walker.s[self.pos : self.pos_end]')],
+                    raises={'TypeError': {'when': 'self.latex_walker is None', 'ensures': []}}, modifies=[])
+    upd_units['LatexNode.latex_verbatim'] = FunctionUnit(c_nv)
+
+    def setup_lv(it):
+        ctx = it.ctx
+        n = ctx.choose(4, 'entries in the list')          # bounded: lists of at most three entries (stated)
+        items, texts = [], []
+        for j in range(n):
+            if ctx.choose(2, 'entry %d is None' % j) == 1:
+                items.append(None)
+                continue
+            t = it.fresh_str('verbatim_of_child_%d' % j)
+            texts.append(t)
+            items.append(AbsVal(z3.Int('child%d' % j), 'node', methods={'latex_verbatim': (lambda t: lambda it2, sf, a_, kw: t)(t)},
+                                attrs={'truth': lambda it2, sf: True}))
+        ctx.ghost['child_texts'] = texts
+        src = sym_str(it, 's')
+        w = None if ctx.choose(2, 'the list knows its walker') == 1 else new_obj(it, W, {'s': src}, tag='latex_walker')
+        pos = None if ctx.choose(2, 'the list has a position') == 1 else sym_int(it, 'pos', lo=0)
+        lst = new_obj(it, NODES + 'LatexNodeList', {'nodelist': PyList(items), 'pos': pos, 'pos_end': (None if pos is None else sym_int(it, 'pos_end', lo=0)),
+                                                    'latex_walker': w, 'parsing_state': None}, tag='self')
+        return {'self': lst}
+
+    @reg.spec('children_verbatim_joined')
+    def children_verbatim_joined(it):
+        out = ''
+        for t in it.ctx.ghost.get('child_texts', []):
+            out = V.sconcat(out, t)
+        return out
+    c_lv = Contract(NODES + 'LatexNodeList.latex_verbatim', setup=setup_lv,
+                    ensures=[('the-concatenation-of-its-nodes-source-in-order', 'result == children_verbatim_joined()')], modifies=[])
+    upd_units['LatexNodeList.latex_verbatim'] = FunctionUnit(c_lv, inline={NODES + 'LatexNodeList.__len__'})
+
     for k in list(units) + list(expr_units):
         contracts.REPLAYERS[k] = replay_parse
     c01 = dict(units)
